@@ -4,6 +4,11 @@ import TakVerif.Proofs.Bits
 construct-for-construct mirror in `Impl/Move.lean` by exhausting the (finitely many) branch combinations. -/
 namespace Tak
 
+theorem toMove_cases (p : Pos) : p.toMove = .white ∨ p.toMove = .black := by
+  unfold Pos.toMove; split
+  · exact .inl rfl
+  · exact .inr rfl
+
 theorem analyze_eq {p q : Pos} (h : p.analyze = some q) :
     q = { p with wgroups := q.wgroups, bgroups := q.bgroups } := by
   unfold Pos.analyze at h
@@ -19,6 +24,16 @@ theorem finish_ok {p q : Pos} (h : finish p = .ok q) :
   split at h
   · cases h; exact analyze_eq ‹_›
   · cases h
+
+/-- `analyze` never runs out of flood fuel.  Proved unconditionally by the roads work package
+(`Roads.analyze_ne_none`); taken as a hypothesis here so that this package does not depend on that branch. -/
+def AnalyzeTotal : Prop := ∀ p : Pos, p.analyze ≠ none
+
+theorem finish_total (hA : AnalyzeTotal) (p : Pos) : ∃ q, finish p = .ok q := by
+  unfold finish
+  split
+  · exact ⟨_, rfl⟩
+  · rename_i h; exact absurd h (hA p)
 
 theorem finish_cases (p : Pos) : (∃ q, finish p = .ok q) ∨ finish p = .error (.hang "analyze") := by
   unfold finish
